@@ -485,7 +485,49 @@ def rule_h(ctx: Ctx) -> None:
         ctx.ok(f"{d.key}|scalar branch form not recognised", {"decided": False})
 
 
-RULES = [rule_a, rule_b, rule_c, rule_d, rule_e, rule_f, rule_g, rule_h]
+def rule_i(ctx: Ctx) -> None:
+    ctx.rule("C12.i", "class-name codec agreement: dump() writes a class outside sqlglot.expressions as '<module>.<qualname>' and one inside it bare; _load() resolves every dotted "
+                      "name through the module it records (unconditionally, in the branch that recognises the dot) and only bare names in sqlglot.expressions — a dotted name looked "
+                      "up anywhere else loads a different class of the same name")
+    m = ctx.repo.module(SERDE)
+    dump = ctx.repo.func(SERDE, "dump")
+    ld = ctx.repo.func(SERDE, "_load")
+    # writer: klass = f"{node.__module__}.{klass}" under a test on the class's module
+    qualified = [st for st in walk_no_nested(dump.node) if isinstance(st, ast.Assign) and isinstance(st.value, ast.JoinedStr) and "__module__" in norm(st.value)]
+    ctx.require(len(qualified) == 1, "anchor vanished: dump() no longer qualifies foreign classes as f'{node.__module__}.{klass}'")
+    # reader: the branch on the dot
+    branches = [st for st in walk_no_nested(ld.node) if isinstance(st, ast.If) and isinstance(st.test, ast.Compare) and isinstance(st.test.left, ast.Constant) and st.test.left.value == "."
+                and len(st.test.ops) == 1 and isinstance(st.test.ops[0], ast.In)]
+    ctx.require(len(branches) == 1, "anchor vanished: _load() no longer branches on '.' in the class name")
+    br = branches[0]
+
+    def is_import_of_recorded(v: ast.AST) -> bool:
+        return isinstance(v, ast.Call) and (call_name(v) or "") in ("__import__", "importlib.import_module", "import_module") and bool(v.args) and isinstance(v.args[0], ast.Name)
+
+    # the variable the class is finally looked up in: getattr(<var>, class_name)
+    lookups = [x for x in walk_no_nested(ld.node) if isinstance(x, ast.Call) and norm(x.func) == "getattr" and len(x.args) >= 2 and isinstance(x.args[0], ast.Name)]
+    ctx.require(bool(lookups), "anchor vanished: _load() no longer looks the class up with getattr(<module>, <name>)")
+    var = lookups[0].args[0].id
+    direct = [st for st in br.body if isinstance(st, (ast.Assign, ast.AnnAssign)) and norm(st.targets[0] if isinstance(st, ast.Assign) else st.target) == var and st.value is not None]
+    nested = [st for b in br.body for st in ast.walk(b) if st not in br.body and isinstance(st, (ast.Assign, ast.AnnAssign))
+              and norm(st.targets[0] if isinstance(st, ast.Assign) else st.target) == var]
+    if len(direct) == 1 and is_import_of_recorded(direct[0].value) and not nested:
+        ctx.ok(f"{ld.key}|dotted names resolve through the recorded module", {"stmt": norm(direct[0])})
+    else:
+        bad = (nested or direct or [br])[0]
+        ctx.fail(m, bad, ld.key, bad, f"in the branch for dotted class names `{var}` is not bound, unconditionally and only, to the import of the recorded module "
+                                       f"(`{norm(bad, 80)}`): a class that dump() recorded as '<module>.<name>' may be looked up in another namespace and load as a different class of the same name")
+    # bare names: every other binding of the variable is sqlglot.expressions
+    others = [st for st in walk_no_nested(ld.node) if isinstance(st, (ast.Assign, ast.AnnAssign)) and st.value is not None
+              and norm(st.targets[0] if isinstance(st, ast.Assign) else st.target) == var and st not in direct and st not in nested]
+    for st in others:
+        if norm(st.value) in ("exp", "sqlglot.expressions"):
+            ctx.ok(f"{ld.key}|bare names resolve in sqlglot.expressions", {"stmt": norm(st)})
+        else:
+            ctx.fail(m, st, ld.key, st, f"`{norm(st)}`: bare class names are written by dump() only for classes of sqlglot.expressions, but are looked up elsewhere")
+
+
+RULES = [rule_a, rule_b, rule_c, rule_d, rule_e, rule_f, rule_g, rule_h, rule_i]
 THOROUGH_RULES = [rule_c_args]
 EXPLANATION = (
     "Writer/reader agreement of the serialisation format decided from the source: set equality between payload keys "
